@@ -79,6 +79,43 @@ def run(res):
                 r, _ = V.py_result(lambda: getattr(mods[m], common.CLASSNAME[op])(*[o for _, _, o in kids]))
                 add('mixed', 'MIXED|%s|%s|%s' % (m, common.CLASSNAME[op], ' ; '.join('%s %s' % (mi, sexpr(t)) for mi, t, _ in kids)),
                     r, ('mixed', m, op, [(mi, t) for mi, t, _ in kids]))
+    # operator overloads (&, |, ~ with formula / bool / str operands on either side) and the CTL shortcuts AX … ER
+    overload = 0
+    for m in V.LOGICS:
+        L = mods[m]
+        objs = [o for t, o in small[m]][:40]
+        for a in objs:
+            for b in rng.sample(objs, 3) + [True, False, 'r']:
+                for name, build, ctor in (('a & b', lambda: a & b, lambda: L.And(a, b)), ('a | b', lambda: a | b, lambda: L.Or(a, b)),
+                                          ('b & a', lambda: b & a, lambda: L.And(b, a)), ('b | a', lambda: b | a, lambda: L.Or(b, a))):
+                    if isinstance(b, str) and name.startswith('b'):
+                        continue   # str has its own & / |: not a formula operation
+                    overload += 1
+                    r1, o1 = V.py_result(build)
+                    r2, o2 = V.py_result(ctor)
+                    same = (r1 == r2) and (r1 != 'OK' or (common.from_obj(o1) == common.from_obj(o2) and type(o1) is type(o2)))
+                    if not same:
+                        direct.append(('%s in %s: the operator gives %s, the constructor %s' % (name, m, r1, r2), m, common.from_obj(a)))
+            r1, o1 = V.py_result(lambda: ~a)
+            r2, o2 = V.py_result(lambda: L.Not(a))
+            overload += 1
+            if r1 != r2 or (r1 == 'OK' and common.from_obj(o1) != common.from_obj(o2)):
+                direct.append(('~a in %s: the operator gives %s, the constructor %s' % (m, r1, r2), m, common.from_obj(a)))
+    C = mods['CTL']
+    for t, o in small['CTL'][:60]:
+        for sc, (q, op) in {'AX': ('A', 'X'), 'EX': ('E', 'X'), 'AF': ('A', 'F'), 'EF': ('E', 'F'), 'AG': ('A', 'G'), 'EG': ('E', 'G')}.items():
+            r, x = V.py_result(lambda: getattr(C, sc)(o))
+            r2, x2 = V.py_result(lambda: common.to_obj((q, (op, t)), C))
+            overload += 1
+            if r != r2 or (r == 'OK' and common.from_obj(x) != common.from_obj(x2)):
+                direct.append(('CTL.%s(%s) = %s, A/E(%s(..)) = %s' % (sc, tree_str(t), r, op, r2), 'CTL', t))
+        for sc, (q, op) in {'AU': ('A', 'U'), 'EU': ('E', 'U'), 'AR': ('A', 'R'), 'ER': ('E', 'R')}.items():
+            t2, o2 = rng.choice(small['CTL'][:60])
+            r, x = V.py_result(lambda: getattr(C, sc)(o, o2))
+            r2, x2 = V.py_result(lambda: common.to_obj((q, (op, t, t2)), C))
+            overload += 1
+            if r != r2 or (r == 'OK' and common.from_obj(x) != common.from_obj(x2)):
+                direct.append(('CTL.%s = %s, A/E(%s(..)) = %s' % (sc, r, op, r2), 'CTL', t))
     checkers = {'CTL': mods['CTL'].modelcheck, 'LTL': mods['LTL'].modelcheck, 'CTLS': mods['CTLS'].modelcheck}
     import contextlib
     import io
@@ -120,7 +157,7 @@ def run(res):
                 'every depth<=1 object of every module, sampled binary/n-ary); 3 modelcheck guards with a Kripke and '
                 'a non-Kripke; distinct_nontrivial = operations that succeed' % (len(all2), len(d3)),
         'exhaustive': True, 'exhaustive_scope': 'depth <= 2', 'outcomes': stats, 'disagreements': bad,
-        'direct_oracle_violations': len(direct),
+        'direct_oracle_violations': len(direct), 'operator_overload_and_shortcut_cases': overload,
         'samples': [{'op': lines[i], 'impl': expect[i], 'model': got[i]} for i in (7, len(lines) // 2, len(lines) - 1)],
         'traces_validated_against_impl': len(lines),
     })
